@@ -153,6 +153,8 @@ def run_cost(case):
     truth = case["truth"]
     late = set(case.get("late", []))
     labels_pre = set()
+    for m in members:
+        m["defaults"] = None  # the harness' model of the initial values is "all 1.0": members are built with the float defaults (integer signature defaults are C05's / C06's subject)
     with guard("build-members"):
         fits = [fs.build(m, apply_params=False, apply_sources=(i not in late)) for i, m in enumerate(members)]
     with guard("MultiFit"):
